@@ -98,7 +98,7 @@ class C01(Property):
                 rng.shuffle(cols)
             st = {"op": "new", "sess": sess, "h": "m%d" % world.model["n"],
                   "wrap": rng.pick(["Motl", "EmMotl", "EmMotl(Motl)"]),
-                  "cols": cols, "rows": gen_motl_rows(rng, n, cfg["nan_rate"], cfg["wild"])}
+                  "cols": cols, "rows": gen_motl_rows(rng, n, cfg["nan_rate"], cfg["wild"], blanks=True)}
             style = rng.pick(["default", "default", "shuffled", "gaps"])
             if style == "shuffled":
                 st["index"] = rng.perm(n)
